@@ -413,3 +413,18 @@ Proof.
   - apply Forall_forall. intros c Hc. apply repeat_spec in Hc. subst c. discriminate.
   - unfold zlength. rewrite app_length, repeat_length. cbn [length]. rewrite Nat2Z.inj_add. reflexivity.
 Qed.
+
+(* A successful parse has handed the WHOLE input to the callback, byte for byte and in order (what the symbol cache
+   stores is the file), and nothing is left in the buffer or in the reader. *)
+Theorem c09_ok_callback_is_whole_input :
+  forall (L : Type) (llen : L -> Z) (PS : Type) (init_ps : PS)
+         (recog : PS -> L -> PS + Z) (bump : PS -> PS) (lineno : PS -> Z),
+    (forall l, 1 <= llen l) ->
+    forall (lines : list L) (tail : Z) (sch : list Z) (inp : list Z) (p : PS) (s : st L PS),
+    zlength inp = input_len L llen lines tail ->
+    drive L llen PS init_ps recog bump lineno lines tail sch = Ret (ROk p, s) ->
+    exists x, biter L llen PS recog bump lineno (Pos.to_nat (fuel_for L llen lines tail))
+                    (binit L PS (init_st L llen PS init_ps lines tail sch) inp) = BDone (ROk p) x /\
+              x_s x = s /\ x_cb x = inp /\ bdata (x_b x) = [] /\ x_in x = [].
+Proof. exact ok_callback_whole_thm. Qed.
+Print Assumptions c09_ok_callback_is_whole_input.
